@@ -1,6 +1,7 @@
 import CTV.Model.X509Wrap
 import CTV.Lemmas.DerSlices
 import CTV.Lemmas.X509Concat
+import CTV.Lemmas.X509Coherent
 /-!
 # C11 — The lenient X.509 parser is total, error-coherent and exact on well-formed input
 
@@ -13,29 +14,6 @@ the payload fields with `crypto/x509` is **correspondence-only** (harness part (
 -/
 namespace C11
 open CTV CTV.Der CTV.Model.X509
-
-/-- `parseCertificate`'s own contract: a coherent pair whose error is nil, `NonFatalErrors` or an ordinary
-(fatal) error — never an `*Errors` value. -/
-def InnerOK (r : Ret) : Prop := Coherent r ∧ ∀ fs, r.err ≠ .errorsPtr fs
-
-theorem finish_coherent (n : Nat) : Coherent (finish true n) := by
-  unfold finish Coherent
-  split <;> simp [isFatal]
-
-theorem mergeInner_coherent (r : Ret) (n : Nat) (h : InnerOK r) : Coherent (mergeInner r n) := by
-  obtain ⟨hc, hne⟩ := h
-  unfold mergeInner
-  cases he : r.err with
-  | nil =>
-    have : r.hasObj = true := by
-      unfold Coherent at hc; rw [he] at hc; simp [isFatal] at hc; exact hc
-    simp only [this]; exact finish_coherent n
-  | nonFatalErrors k =>
-    have : r.hasObj = true := by
-      unfold Coherent at hc; rw [he] at hc; simp [isFatal] at hc; exact hc
-    simp only [this]; exact finish_coherent (n + k)
-  | plain => simp [Coherent, isFatal]
-  | errorsPtr fs => exact absurd he (hne fs)
 
 /-- **coherent (ParseCertificate).** (obj, nil) | (obj, non-fatal) | (nil, fatal) — never mixed. -/
 theorem parseCertificate_coherent (d : Dialect) (inner : AVal → Ret) (hin : ∀ c, InnerOK (inner c)) (bs : Bytes) :
@@ -56,18 +34,6 @@ theorem parseTBSCertificate_coherent (d : Dialect) (inner : AVal → Ret) (hin :
   · split
     · simp [Coherent, isFatal]
     · exact mergeInner_coherent _ _ (hin _)
-
-theorem innerAllR_coherent : ∀ (rs : List Ret) (n : Nat), (∀ r ∈ rs, InnerOK r) → Coherent (innerAllR rs n)
-  | [], n, _ => by simp only [innerAllR]; exact finish_coherent n
-  | r :: rs, n, h => by
-    have hr := h r (List.mem_cons_self ..)
-    have hrs : ∀ x ∈ rs, InnerOK x := fun x hx => h x (List.mem_cons_of_mem _ hx)
-    simp only [innerAllR]
-    cases he : r.err with
-    | nil => exact innerAllR_coherent rs n hrs
-    | nonFatalErrors k => exact innerAllR_coherent rs (n + k) hrs
-    | plain => simp [Coherent, isFatal]
-    | errorsPtr fs => exact absurd he (hr.2 fs)
 
 /-- **coherent (ParseCertificates)**, with or without the F7 repair. -/
 theorem parseCertificates_coherent (d : Dialect) (keeps : Bool) (inner : AVal → Ret) (hin : ∀ c, InnerOK (inner c)) (bs : Bytes) :
